@@ -226,9 +226,7 @@ def _writer_histories(W, wname, model, path, text0):
         wr = W(path, fm)
         try:
             wr.transform()
-            edit(fm)
-            if bd.observe(fm) != em:
-                raise AssertionError('in-place edit did not give the expected model: %s' % what)
+            cm.checked_edit(fm, edit, model, em, what)
             got = _content(path, wr.transform())[0]
             got2 = _content(path, W(path, fm).transform())[0]
             engine.tick(4)
